@@ -114,7 +114,8 @@ Section Scope.
       destruct (should_skip (labels st1) (engine sc) conds); [now rewrite G|].
       destruct (db_request sc w1 id). now rewrite G.
     - destruct (should_skip (labels st) [] conds); [reflexivity|].
-      destruct (may_substitute substitute st false cmd); [|reflexivity|reflexivity].
+      destruct (may_substitute substitute st false cmd) as [cmd'| |]; [|reflexivity|reflexivity].
+      destruct (is_background cmd'); [reflexivity|].
       destruct (sys_request sc w). reflexivity.
     - destruct c; reflexivity.
   Qed.
